@@ -132,5 +132,14 @@ std::string classify_addr(const void *p);
 // run `call` with the library; returns true if it completed, false if it faulted (g_crash filled)
 #define GUARDED_CALL(stmt) \
     (sigsetjmp(g_crash_jmp, 1) == 0 ? (g_in_lib = 1, (stmt), g_in_lib = 0, true) : (g_in_lib = 0, false))
+// same, but the stack below the caller is dirtied *after* sigsetjmp returned, so that the garbage the
+// library's frames lie on is a pure function of `pat` (no return addresses of libc frames in it)
+#define GUARDED_CALL_DIRTY(pat, stmt) \
+    (sigsetjmp(g_crash_jmp, 1) == 0 ? (g_in_lib = 1, dirty_stack(pat), (stmt), g_in_lib = 0, true) : (g_in_lib = 0, false))
+
+// Determinism of everything the library can observe, including garbage: no ASLR, fixed-address
+// simulator stack, fixed-address arenas.
+void disable_aslr_and_reexec(char **argv);
+void run_on_sim_stack(void (*fn)(void *), void *arg);
 
 void seams_init();
